@@ -51,6 +51,9 @@ CHECKS = {
     "C03": dict(cat="other", ref="DESIGN.md §4 C03 (E1 variant, see §11)", technique="CrossHair symbolic execution of the close protocol on both sides over histories (explicit close / end of remote_exec / reference drop) with symbolic items, sibling traffic and number of late receives",
                 text="Bounded symbolic check of close-after-data ordering and of both sides' post-close behaviour; several concurrently blocked receivers are outside this check.",
                 note=E1_NOTE + "; receiver thread body runs synchronously"),
+    "C18": dict(cat="other", ref="DESIGN.md §4 C18", technique="E3: the id-allocation kernel read from the real source by AST and its parity/freshness invariant shown inductive in z3 over unbounded integers; E1: CrossHair symbolic execution of channel-over-channel transfer and table hygiene",
+                text="One-step induction (z3, unbounded ints) for id disjointness/freshness over histories of any length, relying on the lock seen in the AST for atomicity of read-and-increment; bounded symbolic execution for (de)serialisation of channels and for the channel tables returning to baseline.",
+                note=E1_NOTE + "; E3 trusts the AST extraction of (start counts, increment, with-lock block) and threading.RLock's mutual exclusion; concurrent newchannel() schedules are not explored beyond that"),
 }
 
 NOT_APPLICABLE = [
